@@ -63,6 +63,7 @@ theorem TxMd.parse_bytes (m : TxMd) (wf : m.WF) : parseTxMd m.bytes = .ok m ∧ 
     obtain ⟨h1, h2⟩ := hx _ rfl
     rw [h1]
     simp [txmdLoop]
+    have hM : Gen.storeMaxExtraLen = 256 := rfl
     refine ⟨?_, by omega⟩
     repeat (rw [if_neg (by omega)])
 
@@ -215,37 +216,36 @@ theorem reseal_wf_thm (hs : HsD D) (lim : Limits) (r r' : Record D) (es : List (
       ver := wf.ver, md_v0 := wf.md_v0, md := wf.md, ne := rfl, ne_max := hmax,
       ne_fit0 := hfit0, ne_fit := hfit, entries := hes, eh := rfl, alh := ha }
 
+/-- The former panic witness: 3 metadata bytes `01 00 05` (an `extra` attribute declaring more
+bytes than present) are rejected by the tx-metadata parser. -/
 theorem txmd_overrun_thm (hs : HsD D) (lim : Limits) (blRoot prevAlh : D) (rest : Bytes) :
     parseTx hs lim
       (beN 8 1 ++ (beN 8 0 ++ (beN 8 0 ++ (hs.enc blRoot ++ (hs.enc prevAlh ++ (beN 2 1 ++
-       (beN 2 3 ++ ([1, 0, 5] ++ rest)))))))) = .error .panic := by
-  have hp : parseTxMd [1, 0, 5] = .error .panic := by
+       (beN 2 3 ++ ([1, 0, 5] ++ rest)))))))) = .error .corruptedData := by
+  have hp : parseTxMd [1, 0, 5] = .error .corruptedData := by
     simp [parseTxMd, txmdLoop, Gen.storeMaxTxMetadataLen, Gen.storeTruncatedUptoTxAttrCode,
-      Gen.storeExtraAttrCode, Gen.storeSszSize, beVal]
+      Gen.storeExtraAttrCode, Gen.storeSszSize, Gen.storeMaxExtraLen, beVal]
   have hr : readN 3 (1 :: 0 :: 5 :: rest) = .ok ([1, 0, 5], rest) := readN_append 3 [1, 0, 5] rest rfl
   simp [parseTx, readHeader, Gen.storeTxIDSize, Gen.storeTsSize, Gen.storeSszSize,
     Gen.storeMaxTxMetadataLen, readU_append, readD_append, hr, hp]
 
 theorem parseTxMd_long_extra (x : Bytes) (hx : x.length = 257) :
-    parseTxMd (1 :: 1 :: 1 :: x) = .ok { truncated := none, extra := some x } := by
-  have hd : List.drop 257 x = [] := by apply List.drop_eq_nil_of_le; omega
-  have ht : List.take 257 x = x := by apply List.take_of_length_le; omega
+    parseTxMd (1 :: 1 :: 1 :: x) = .error .corruptedData := by
   simp [parseTxMd, Gen.storeMaxTxMetadataLen, txmdLoop, Gen.storeTruncatedUptoTxAttrCode, Gen.storeExtraAttrCode,
-    Gen.storeSszSize, beVal, hx, hd, ht]
+    Gen.storeSszSize, Gen.storeMaxExtraLen, beVal, hx]
 
+/-- The former panic witness: an `extra` attribute of 257 bytes (> `maxExtraLen`) is rejected by
+the tx-metadata parser instead of reaching `extraAttribute.serialize`. -/
 theorem txmd_too_long_thm (hs : HsD D) (lim : Limits) (a b c : D) (x rest : Bytes) (hx : x.length = 257) :
     parseTx hs lim
       (beN 8 1 ++ (beN 8 0 ++ (beN 8 0 ++ (hs.enc a ++ (hs.enc b ++ (beN 2 1 ++
-       (beN 2 260 ++ ((1 :: 1 :: 1 :: x) ++ (beN 4 0 ++ (hs.enc c ++ rest)))))))))) = .error .panic := by
+       (beN 2 260 ++ ((1 :: 1 :: 1 :: x) ++ (beN 4 0 ++ (hs.enc c ++ rest)))))))))) = .error .corruptedData := by
   have hl : (1 :: 1 :: 1 :: x).length = 260 := by simp [hx]
-  have hb : beVal (beN 2 257) = 257 := by rw [beVal_beN]
-  have hex : txmdExtraLen (TxMd.bytes { truncated := none, extra := some x }) = 257 := by
-    simp [TxMd.bytes, txmdExtraLen, Gen.storeTruncatedUptoTxAttrCode, Gen.storeExtraAttrCode, Gen.storeSszSize, hx, hb]
   have hr : ∀ t, readN 260 (1 :: 1 :: 1 :: (x ++ t)) = .ok (1 :: 1 :: 1 :: x, t) := fun t => by
     have := readN_append 260 (1 :: 1 :: 1 :: x) t hl
     simpa using this
-  simp [parseTx, readHeader, readEntries, hr, Gen.storeTxIDSize, Gen.storeTsSize, Gen.storeSszSize, Gen.storeLszSize,
-    Gen.storeMaxTxMetadataLen, Gen.storeMaxExtraLen,
-    readU_append, readD_append, parseTxMd_long_extra x hx, hex]
+  simp [parseTx, readHeader, hr, Gen.storeTxIDSize, Gen.storeTsSize, Gen.storeSszSize, Gen.storeLszSize,
+    Gen.storeMaxTxMetadataLen,
+    readU_append, readD_append, parseTxMd_long_extra x hx]
 
 end ImmuModel.Tx.Rec
